@@ -8,6 +8,8 @@
 //!   `STAGE` core|mono|lift|anf programs for `Sem` and for the closedness oracle
 //! Modes: `gv c07` (all streams), `gv c07 file <f.gom>` (one file, human readable),
 //! `gv c07 one <f.gom>` (one file, used by the watchdog: prints `DONE` when mono returned).
+//! `gv c07 inst [tag]` / `gv c07 req [tag]` list the instantiation-pair / request-route catalogues (one line per
+//! program: outcome and what the model-free oracles found; the program text of `tag`).
 use crate::c01;
 use crate::dump;
 use crate::sexp::{S, a, esc_line, l, tagged};
@@ -492,6 +494,37 @@ pub fn unspecialised_refs(core: &compiler::core::File, mono: &compiler::mono::Mo
     bad
 }
 
+/// the Core function a Mono function is an instance of: the longest Core name `o` with `name == o` or
+/// `name` starting with `o__` (the spelling of `spec_name_for`)
+pub fn instance_origin<'a>(core_names: &[&'a str], name: &str) -> Option<&'a str> {
+    core_names
+        .iter()
+        .filter(|o| name == **o || (name.starts_with(**o) && name[o.len()..].starts_with("__")))
+        .max_by_key(|o| o.len())
+        .copied()
+}
+
+/// "every instance is generated exactly once": groups of two or more Mono functions that are the SAME instance
+/// of one Core function — same origin, same parameter list, same result type and the same body once the
+/// function's own name is blanked (whatever the copies are called: equal names or not).  Two different
+/// instantiations differ in at least one type of the signature or the body, so they are never grouped.
+pub fn repeated_instances(core: &compiler::core::File, mono: &compiler::mono::MonoFile) -> Vec<(String, Vec<String>)> {
+    let core_names: Vec<&str> = core.toplevels.iter().map(|f| f.name.as_str()).collect();
+    let mut groups: IndexMap<(String, String), Vec<String>> = IndexMap::new();
+    for f in mono.toplevels.iter() {
+        let Some(o) = instance_origin(&core_names, &f.name) else { continue };
+        let text = format!(
+            "{}|{}|{}",
+            f.params.iter().map(|(p, t)| format!("{}:{}", p, dump::ty(t).to_text())).collect::<Vec<_>>().join(","),
+            dump::ty(&f.ret_ty).to_text(),
+            dump::mono_expr(&f.body).to_text()
+        )
+        .replace(f.name.as_str(), "@self");
+        groups.entry((o.to_string(), text)).or_default().push(f.name.clone());
+    }
+    groups.into_iter().filter(|(_, v)| v.len() > 1).map(|((o, _), v)| (o, v)).collect()
+}
+
 pub fn emit(id: &str, src: Option<&str>, st: &Staged, out: &mut String) {
     if let Some(s) = src {
         writeln!(out, "{}\tSRC\t{}", id, esc_line(s)).unwrap();
@@ -516,6 +549,10 @@ pub fn emit(id: &str, src: Option<&str>, st: &Staged, out: &mut String) {
             if !tc.is_empty() {
                 let shown: Vec<String> = tc.iter().map(|c| format!("{}\u{1f}{}\u{1f}{}\u{1f}{}\u{1f}{}", esc_line(&c.func), esc_line(&c.type_name), c.site, esc_line(&c.defined), esc_line(&c.used))).collect();
                 writeln!(out, "{}\tTYINST\t{}", id, shown.join("\t")).unwrap();
+            }
+            let rep = repeated_instances(core, m);
+            if !rep.is_empty() {
+                writeln!(out, "{}\tDUPINST\t{}", id, rep.iter().map(|(o, v)| format!("{}>{}", esc_line(o), v.iter().map(|n| esc_line(n)).collect::<Vec<_>>().join(">"))).collect::<Vec<_>>().join("\t")).unwrap();
             }
             let n_inst_uses = count_instance_uses(m, env);
             writeln!(out, "{}\tTYINSTN\t{}\t{}", id, n_inst_uses.0, n_inst_uses.1).unwrap();
@@ -620,6 +657,27 @@ pub fn main(args: &util::Args) {
             };
             let conflicts = st.mono.as_ref().map(|(m, env)| type_instance_conflicts(m, env)).unwrap_or_default();
             println!("{}\t{}\t{}", tag, outcome, conflicts.iter().map(|c| format!("{}:{}:{} def[{}] use[{}]", c.func, c.type_name, c.site, c.defined, c.used)).collect::<Vec<_>>().join(" ; "));
+            if args.rest.get(1).map(|s| s.as_str()) == Some(tag.as_str()) {
+                println!("{}", src);
+            }
+        }
+        let _ = std::fs::remove_dir_all(&dir);
+        return;
+    }
+    if args.rest.first().map(|s| s.as_str()) == Some("req") {
+        // the request-route catalogue, one line per program: outcome, instances of `q`, repeated instances
+        let dir = util::scratch_dir("c07q");
+        for (tag, src) in req_programs(args.seed, args.tier == "thorough") {
+            let st = run_in(&dir, &src);
+            let outcome = match &st.stop {
+                None => "ok".to_string(),
+                Some((k, s, m)) => format!("{} {} {}", k, s, m),
+            };
+            let (qn, rep) = match (&st.core, &st.mono) {
+                (Some(c), Some((m, _))) => (req_q_instances(c, m).map(|x| x.1).unwrap_or(0), repeated_instances(c, m)),
+                _ => (0, vec![]),
+            };
+            println!("{}\t{}\tq-instances={}\t{:?}", tag, outcome, qn, rep);
             if args.rest.get(1).map(|s| s.as_str()) == Some(tag.as_str()) {
                 println!("{}", src);
             }
@@ -753,6 +811,22 @@ pub fn main(args: &util::Args) {
         let st = run_in(&dir, &src);
         let mut out = String::new();
         emit(&id, Some(&src), &st, &mut out);
+        sink.put(&out);
+    }
+    // ---- stream 7: request routes x signature shapes — ONE instantiation of a generic function / method asked for
+    // through two (or all) of the ways a program can ask for it, in both orders; exactly two instances must result
+    for (tag, src) in req_programs(args.seed, args.tier == "thorough") {
+        let id = format!("req:{}", tag);
+        sink.begin(&id);
+        let st = run_in(&dir, &src);
+        let mut out = String::new();
+        emit(&id, Some(&src), &st, &mut out);
+        if let (Some(core), Some((m, _))) = (&st.core, &st.mono) {
+            match req_q_instances(core, m) {
+                Some((q, got)) => writeln!(out, "{}\tEXPECTINST\t{}\t2\t{}", id, esc_line(&q), got).unwrap(),
+                None => writeln!(out, "{}\tEXPECTINST\t?\t2\t0", id).unwrap(),
+            }
+        }
         sink.put(&out);
     }
     sink.put(&format!("#FEATS\t{}\n", feats_total.iter().map(|(k, v)| format!("{}={}", k, v)).collect::<Vec<_>>().join(" ")));
@@ -973,6 +1047,245 @@ pub fn inst_pair_programs(seed: u64) -> Vec<(String, String)> {
         }
     }
     out
+}
+
+// ---------------------------------------------------------------- request routes x signature shapes (`req:`)
+
+/// a generic function (or method of `impl[A, B] Pr[A, B]`) `q` over the type parameters A, B(, C).  Type templates
+/// use `{A}` `{B}` `{C}`, value templates the leaf literals `{a}` `{b}` `{c}`; parameters are `p0`, `p1`, …
+/// (`self` for the receiver of a method).  The shapes differ in the ORDER in which the parameters first occur in
+/// the declaration, in the parameter list and in the result type (and in what they are nested in), so the order
+/// in which a request discovers the bindings differs between shapes and between the parts of one signature.
+pub struct ReqShape {
+    pub tag: &'static str,
+    pub generics: &'static [&'static str],
+    pub params: &'static [&'static str],
+    pub ret: &'static str,
+    pub body: &'static str,
+    pub args: &'static [&'static str],
+    /// (leaf parameter, expression over the result `{r}` that reads a value of that leaf type)
+    pub reads: &'static [(&'static str, &'static str)],
+    pub method: bool,
+}
+
+pub const REQ_SHAPES: &[ReqShape] = &[
+    ReqShape { tag: "same-order", generics: &["A", "B"], params: &["{A}", "{B}"], ret: "({A}, {B})", body: "(p0, p1)", args: &["{a}", "{b}"], reads: &[("A", "{r}.0"), ("B", "{r}.1")], method: false },
+    ReqShape { tag: "result-swapped", generics: &["A", "B"], params: &["{A}", "{B}"], ret: "({B}, {A})", body: "(p1, p0)", args: &["{a}", "{b}"], reads: &[("B", "{r}.0"), ("A", "{r}.1")], method: false },
+    ReqShape { tag: "declared-reversed", generics: &["B", "A"], params: &["{A}", "{B}"], ret: "({A}, {B})", body: "(p0, p1)", args: &["{a}", "{b}"], reads: &[("A", "{r}.0"), ("B", "{r}.1")], method: false },
+    ReqShape { tag: "params-reversed", generics: &["A", "B"], params: &["{B}", "{A}"], ret: "({A}, {B})", body: "(p1, p0)", args: &["{b}", "{a}"], reads: &[("A", "{r}.0"), ("B", "{r}.1")], method: false },
+    ReqShape { tag: "result-second-only", generics: &["A", "B"], params: &["{A}", "{B}"], ret: "{B}", body: "p1", args: &["{a}", "{b}"], reads: &[("B", "{r}")], method: false },
+    ReqShape { tag: "tuple-param", generics: &["A", "B"], params: &["({A}, {B})"], ret: "({B}, {A})", body: "(p0.1, p0.0)", args: &["({a}, {b})"], reads: &[("B", "{r}.0"), ("A", "{r}.1")], method: false },
+    ReqShape { tag: "struct-result", generics: &["A", "B"], params: &["{A}", "{B}"], ret: "Pr[{B}, {A}]", body: "Pr { a: p1, b: p0 }", args: &["{a}", "{b}"], reads: &[("B", "{r}.a"), ("A", "{r}.b")], method: false },
+    ReqShape { tag: "fn-param", generics: &["A", "B"], params: &["({B}) -> {A}", "{B}"], ret: "{A}", body: "p0(p1)", args: &["|x: {B}| {a}", "{b}"], reads: &[("A", "{r}")], method: false },
+    ReqShape { tag: "fn-result", generics: &["A", "B"], params: &["{A}", "{B}"], ret: "({B}) -> {A}", body: "|x: {B}| p0", args: &["{a}", "{b}"], reads: &[("A", "{r}({b})")], method: false },
+    ReqShape { tag: "three-rotated", generics: &["A", "B", "C"], params: &["{A}", "{B}", "{C}"], ret: "({C}, {A}, {B})", body: "(p2, p0, p1)", args: &["{a}", "{b}", "{c}"], reads: &[("C", "{r}.0"), ("A", "{r}.1"), ("B", "{r}.2")], method: false },
+    ReqShape { tag: "repeated", generics: &["A", "B"], params: &["{A}", "{B}", "{A}"], ret: "({B}, {A}, {B})", body: "(p1, p2, p1)", args: &["{a}", "{b}", "{a}"], reads: &[("B", "{r}.0"), ("A", "{r}.1")], method: false },
+    ReqShape { tag: "enum-array", generics: &["A", "B"], params: &["Opt[{B}]", "[{A}; 2]"], ret: "([{A}; 2], Opt[{B}])", body: "(p1, p0)", args: &["Opt::Som({b})", "[{a}, {a}]"], reads: &[("A", "array_get({r}.0, 1)"), ("B", "opt_or({r}.1, {b})")], method: false },
+    ReqShape { tag: "ref-vec", generics: &["A", "B"], params: &["Ref[{A}]", "Vec[{B}]"], ret: "(Vec[{B}], Ref[{A}])", body: "(p1, p0)", args: &["ref({a})", "vec_push(vec_new(), {b})"], reads: &[("B", "vec_get({r}.0, 0)"), ("A", "ref_get({r}.1)")], method: false },
+    ReqShape { tag: "nested-app", generics: &["A", "B"], params: &["Bx[Opt[{A}]]", "{B}"], ret: "Pr[{B}, Opt[{A}]]", body: "Pr { a: p1, b: p0.v }", args: &["Bx { v: Opt::Som({a}) }", "{b}"], reads: &[("B", "{r}.a"), ("A", "opt_or({r}.b, {a})")], method: false },
+    ReqShape { tag: "method-flip", generics: &["A", "B"], params: &["Pr[{A}, {B}]"], ret: "Pr[{B}, {A}]", body: "Pr { a: self.b, b: self.a }", args: &["Pr { a: {a}, b: {b} }"], reads: &[("B", "{r}.a"), ("A", "{r}.b")], method: true },
+    ReqShape { tag: "method-param", generics: &["A", "B"], params: &["Pr[{A}, {B}]", "{B}"], ret: "({B}, {A})", body: "(p1, self.a)", args: &["Pr { a: {a}, b: {b} }", "{b}"], reads: &[("B", "{r}.0"), ("A", "{r}.1")], method: true },
+];
+
+/// the ways a program can ask for an instance of `q`: a call (`mono_expr`, case `ECall`) or a use as a value
+/// (case `EVar`, `specialize_fn_value`), from monomorphic code, from inside another generic instance (the
+/// request is built under a non-empty substitution) or from inside a closure
+#[derive(Clone, Copy, PartialEq, Eq, Debug)]
+pub enum ReqRoute {
+    Call,
+    Hof,
+    LetValue,
+    Returned,
+    InGenericCall,
+    InGenericValue,
+    Closure,
+    Array,
+    Field,
+    Dot,
+    InGenericDot,
+}
+
+impl ReqRoute {
+    pub fn tag(self) -> &'static str {
+        match self {
+            ReqRoute::Call => "call",
+            ReqRoute::Hof => "value-argument",
+            ReqRoute::LetValue => "value-let",
+            ReqRoute::Returned => "value-returned",
+            ReqRoute::InGenericCall => "call-in-generic",
+            ReqRoute::InGenericValue => "value-in-generic",
+            ReqRoute::Closure => "call-in-closure",
+            ReqRoute::Array => "value-array",
+            ReqRoute::Field => "value-field",
+            ReqRoute::Dot => "method-call",
+            ReqRoute::InGenericDot => "method-call-in-generic",
+        }
+    }
+}
+
+const FN_ROUTES: &[ReqRoute] = &[ReqRoute::Call, ReqRoute::Hof, ReqRoute::LetValue, ReqRoute::Returned, ReqRoute::InGenericCall, ReqRoute::InGenericValue, ReqRoute::Closure, ReqRoute::Array, ReqRoute::Field];
+const METHOD_ROUTES: &[ReqRoute] = &[ReqRoute::Call, ReqRoute::Dot, ReqRoute::InGenericCall, ReqRoute::InGenericDot, ReqRoute::Closure];
+
+fn req_inst(t: &str, tys: [&str; 3], vals: [&str; 3]) -> String {
+    t.replace("{A}", tys[0]).replace("{B}", tys[1]).replace("{C}", tys[2]).replace("{a}", vals[0]).replace("{b}", vals[1]).replace("{c}", vals[2])
+}
+
+/// one request of `q` at the instantiation `tys` through `route`: (top-level declarations, statements of `main`
+/// ending with the result in `r{k}`)
+fn req_use(sh: &ReqShape, route: ReqRoute, k: usize, tys: [&str; 3], vals: [&str; 3]) -> (String, String) {
+    let it = |t: &str| req_inst(t, tys, vals);
+    let n = sh.params.len();
+    let pts: Vec<String> = sh.params.iter().map(|t| it(t)).collect();
+    let rt = it(sh.ret);
+    let args: Vec<String> = sh.args.iter().map(|t| it(t)).collect();
+    let ft = format!("({}) -> {}", pts.join(", "), rt);
+    // the wrappers are generic over X, W, V (alphabetically the other way round than A, B, C)
+    let wr = |t: &str| req_inst(t, ["X", "W", "V"], ["", "", ""]);
+    let ggens = sh.generics.iter().map(|g| match *g { "A" => "X", "B" => "W", _ => "V" }).collect::<Vec<_>>().join(", ");
+    let gparams = sh.params.iter().enumerate().map(|(i, t)| format!("p{}: {}", i, wr(t))).collect::<Vec<_>>().join(", ");
+    let grt = wr(sh.ret);
+    let ps: Vec<String> = (0..n).map(|i| format!("p{i}")).collect();
+    let q = if sh.method { "Pr::q" } else { "q" };
+    let call = |a: &[String]| format!("{}({})", q, a.join(", "));
+    let (top, body) = match route {
+        ReqRoute::Call => (String::new(), format!("  let r{k}: {rt} = {};\n", call(&args))),
+        ReqRoute::Hof => (String::new(), format!("  let r{k}: {rt} = ap{n}(q, {});\n", args.join(", "))),
+        ReqRoute::LetValue => (String::new(), format!("  let g{k}: {ft} = q;\n  let r{k}: {rt} = g{k}({});\n", args.join(", "))),
+        ReqRoute::Returned => (format!("fn get{k}() -> {ft} {{ q }}\n"), format!("  let g{k} = get{k}();\n  let r{k}: {rt} = g{k}({});\n", args.join(", "))),
+        ReqRoute::InGenericCall => (format!("fn via{k}[{ggens}]({gparams}) -> {grt} {{ {} }}\n", call(&ps)), format!("  let r{k}: {rt} = via{k}({});\n", args.join(", "))),
+        ReqRoute::InGenericValue => (format!("fn viav{k}[{ggens}]({gparams}) -> {grt} {{ ap{n}(q, {}) }}\n", ps.join(", ")), format!("  let r{k}: {rt} = viav{k}({});\n", args.join(", "))),
+        ReqRoute::Closure => (String::new(), format!("  let c{k} = |u: unit| {};\n  let r{k}: {rt} = c{k}(());\n", call(&args))),
+        ReqRoute::Array => (String::new(), format!("  let fs{k}: [{ft}; 2] = [q, q];\n  let g{k} = array_get(fs{k}, 1);\n  let r{k}: {rt} = g{k}({});\n", args.join(", "))),
+        ReqRoute::Field => (String::new(), format!("  let h{k}: Hold[{ft}] = Hold {{ f: q }};\n  let g{k} = h{k}.f;\n  let r{k}: {rt} = g{k}({});\n", args.join(", "))),
+        ReqRoute::Dot => (String::new(), format!("  let s{k}: {} = {};\n  let r{k}: {rt} = s{k}.q({});\n", pts[0], args[0], args[1..].join(", "))),
+        ReqRoute::InGenericDot => (format!("fn viad{k}[{ggens}]({gparams}) -> {grt} {{ p0.q({}) }}\n", ps[1..].join(", ")), format!("  let r{k}: {rt} = viad{k}({});\n", args.join(", "))),
+    };
+    (top, body)
+}
+
+/// one program: `q` of shape `sh` is requested at (A, B, C) := (t1, t2, t3) through `routes` in that order and at
+/// (t2, t1, t3) through the same routes in reverse order; every result is taken apart and printed.  Exactly two
+/// instances of `q` must exist afterwards.
+pub fn req_program(sh: &ReqShape, routes: &[ReqRoute], leaves: [usize; 3]) -> String {
+    const LIB: &str = "struct Pr[A, B] { a: A, b: B }\nstruct Hold[F] { f: F }\n\
+        fn unbx[T](b: Bx[T]) -> T { b.v }\n\
+        fn ap1[X1, Z](g: (X1) -> Z, x1: X1) -> Z { g(x1) }\n\
+        fn ap2[X1, X2, Z](g: (X1, X2) -> Z, x1: X1, x2: X2) -> Z { g(x1, x2) }\n\
+        fn ap3[X1, X2, X3, Z](g: (X1, X2, X3) -> Z, x1: X1, x2: X2, x3: X3) -> Z { g(x1, x2, x3) }\n";
+    let generic = |t: &str| req_inst(t, ["A", "B", "C"], ["", "", ""]);
+    let decl = if sh.method {
+        let rest = sh.params.iter().enumerate().skip(1).map(|(i, t)| format!(", p{}: {}", i, generic(t))).collect::<String>();
+        format!("impl[{}] Pr[A, B] {{ fn q(self: {}{}) -> {} {{ {} }} }}\n", sh.generics.join(", "), generic(sh.params[0]), rest, generic(sh.ret), generic(sh.body))
+    } else {
+        let ps = sh.params.iter().enumerate().map(|(i, t)| format!("p{}: {}", i, generic(t))).collect::<Vec<_>>().join(", ");
+        format!("fn q[{}]({}) -> {} {{ {} }}\n", sh.generics.join(", "), ps, generic(sh.ret), generic(sh.body))
+    };
+    let mut tops = String::new();
+    let mut body = String::new();
+    let mut k = 0usize;
+    let l = |i: usize| INST_LEAVES[leaves[i]];
+    for (inst, order) in [(0usize, routes.to_vec()), (1usize, routes.iter().rev().copied().collect::<Vec<_>>())] {
+        let ix: [usize; 3] = if inst == 0 { [0, 1, 2] } else { [1, 0, 2] };
+        let tys = [l(ix[0]).0, l(ix[1]).0, l(ix[2]).0];
+        let vals = [l(ix[0]).1, l(ix[1]).1, l(ix[2]).1];
+        for route in order {
+            let (t, b) = req_use(sh, route, k, tys, vals);
+            tops.push_str(&t);
+            body.push_str(&b);
+            for (leaf, read) in sh.reads {
+                let li = match *leaf { "A" => ix[0], "B" => ix[1], _ => ix[2] };
+                let e = req_inst(read, tys, vals).replace("{r}", &format!("r{k}"));
+                writeln!(body, "  let _ = string_println({});", l(li).2.replace("{}", &e)).unwrap();
+            }
+            k += 1;
+        }
+    }
+    // only the library declarations the program refers to (directly or through another declaration), so that a
+    // failing program is small
+    let rest = format!("{}{}fn main() -> unit {{\n{}  string_println(\"end\")\n}}\n", decl, tops, body);
+    let lib: Vec<(&str, &str)> = PRELUDE
+        .lines()
+        .chain(LIB.lines())
+        .filter_map(|line| {
+            let name = line.split_whitespace().nth(1)?.split(['[', '(']).next()?;
+            Some((name, line))
+        })
+        .collect();
+    let mut used = vec![false; lib.len()];
+    loop {
+        let text = format!("{}{}", lib.iter().zip(used.iter()).filter(|(_, u)| **u).map(|((_, l), _)| *l).collect::<Vec<_>>().join("\n"), rest);
+        let mut changed = false;
+        for (i, (name, line)) in lib.iter().enumerate() {
+            if !used[i] && mentions(&text, name) {
+                let _ = line;
+                used[i] = true;
+                changed = true;
+            }
+        }
+        if !changed {
+            break;
+        }
+    }
+    let mut src = String::new();
+    for ((_, line), u) in lib.iter().zip(used.iter()) {
+        if *u {
+            src.push_str(line);
+            src.push('\n');
+        }
+    }
+    src + &rest
+}
+
+/// does `text` contain the identifier `name` (not as part of a longer identifier)
+fn mentions(text: &str, name: &str) -> bool {
+    let b = text.as_bytes();
+    text.match_indices(name).any(|(i, _)| {
+        let before = i == 0 || !(b[i - 1].is_ascii_alphanumeric() || b[i - 1] == b'_');
+        let j = i + name.len();
+        let after = j >= b.len() || !(b[j].is_ascii_alphanumeric() || b[j] == b'_');
+        before && after
+    })
+}
+
+/// the catalogue: every shape x (one program with ALL routes, rotated by the seed) + programs with TWO routes
+/// (quick: every fourth pair, rotating with the seed and the shape; thorough: every pair)
+pub fn req_programs(seed: u64, thorough: bool) -> Vec<(String, String)> {
+    let mut out = Vec::new();
+    let mut n = 0usize;
+    for (si, sh) in REQ_SHAPES.iter().enumerate() {
+        let routes = if sh.method { METHOD_ROUTES } else { FN_ROUTES };
+        let mut leaves = |n: usize| {
+            let i1 = (seed as usize + n) % INST_LEAVES.len();
+            let i2 = (i1 + 1 + (n / 5) % 4) % INST_LEAVES.len();
+            let i3 = (0..INST_LEAVES.len()).filter(|i| *i != i1 && *i != i2).nth((n / 20) % 3).unwrap();
+            [i1, i2, i3]
+        };
+        let rot = (seed as usize + si) % routes.len();
+        let all: Vec<ReqRoute> = routes.iter().cycle().skip(rot).take(routes.len()).copied().collect();
+        out.push((format!("{}:all-from-{}", sh.tag, all[0].tag()), req_program(sh, &all, leaves(n))));
+        n += 1;
+        let mut pi = 0usize;
+        for i in 0..routes.len() {
+            for j in i + 1..routes.len() {
+                pi += 1;
+                if !thorough && !sh.method && (pi + seed as usize + si) % 4 != 0 {
+                    continue;
+                }
+                // which of the two asks first alternates with the seed
+                let pair = if (pi + seed as usize) % 2 == 0 { [routes[i], routes[j]] } else { [routes[j], routes[i]] };
+                out.push((format!("{}:{}+{}", sh.tag, pair[0].tag(), pair[1].tag()), req_program(sh, &pair, leaves(n))));
+                n += 1;
+            }
+        }
+    }
+    out
+}
+
+/// number of Mono functions that are instances of the catalogue's `q`
+pub fn req_q_instances(core: &compiler::core::File, mono: &compiler::mono::MonoFile) -> Option<(String, usize)> {
+    let core_names: Vec<&str> = core.toplevels.iter().map(|f| f.name.as_str()).collect();
+    let q = core_names.iter().find(|n| **n == "q" || n.ends_with("#q")).copied()?;
+    Some((q.to_string(), mono.toplevels.iter().filter(|f| instance_origin(&core_names, &f.name) == Some(q)).count()))
 }
 
 pub fn gen_cfg(i: usize) -> crate::progen::Cfg {
